@@ -9,6 +9,30 @@ CLAIMS = {
  "C01": ("Lean theorems: every decoder on the receive path (header, typed decoders, SnmpValue, relative OID, PDUs, v1/v2c/v3 messages, USM, scoped PDU, msgData, DES/AES decrypt, unwrap_pdu, op-layer conversion, the receive loop over any datagram sequence) returns a value or a documented exception and never panics, for every byte string, session state and pending operation; termination by structural / well-founded recursion with the progress guards shown unreachable. Tied to /repo by running model and Rust harness on generated, mutated, malformed and exhaustive-small inputs; oracle: no panic, process alive.",
          TB + "block ciphers are parameters returning whole blocks; safe-Rust bounds checks; dev-profile overflow checks; socket / PyO3 glue not modelled.",
          "Lean 4 proof (totality by induction on the input) + differential correspondence + panic oracle", "§7 C01"),
+ "C03": ("Lean theorems: for every v1/v2c session state, call and buffer contents the emitted datagram is exactly the independent minimal encoding (Lemmas.EncSpec) of version, community, PDU type of the call, masked request-id, zero error fields and the requested OIDs in order bound to NULL, or the call fails and nothing is sent; the result does not depend on what the pooled buffer held before (history_free, pool_reset); request ids are in 0..2^31-1; fetch / max-repetitions policy. v3: the same statement through pushV3_spec in the C09 theorems; every datagram of random multi-session histories is re-read by an independent strict decoder and replayed byte-for-byte (HMAC and ciphertext included) on the Lean model.",
+         TB + "rand (ids are inputs), the pool mutex; the v3 wire theorem lives in C09 (auth_wire / noauth_wire).",
+         "Lean 4 proof (encoder refinement to an independent DER spec, frame independence) + e2e oracle + session-level correspondence", "§7 C03"),
+ "C04": ("Lean theorems about the receive loop for ANY datagram sequence: a PDU is delivered only if the datagram decodes as the session's version and community (v1/v2c) or user, engine id and msgID (v3) match and the request-id equals the single stored id, which every send overwrites (latest_only); a well-formed non-matching message is skipped and the loop continues on the rest of the sequence; an undecodable datagram ends the call with a decode error; an exhausted queue yields WouldBlock. E2E: scripts of 1..4 requests with 13 fault kinds, expected outcome computed from the ids on the wire, and replay on the model.",
+         TB + "the kernel UDP queue (sequences are inputs); Reports bypass the request-id check by design (C07).",
+         "Lean 4 proof (invariant over arbitrary datagram sequences) + fault-script oracle + correspondence", "§7 C04"),
+ "C09": ("Lean theorems: for every message, key and buffer history the datagram of an authenticated session equals the independent encoding with the 12 placeholder octets replaced by Spec.hmac96 (RFC 2104 over the whole message with the field zeroed) — the bookmark is proved to be the offset of the placeholder for every field width and long-form length; flags carry auth iff the session has a key; without a key the field is empty. E2E: every datagram of random histories re-verified with Python hmac/hashlib under independently derived keys.",
+         TB + "MD5 / SHA-1 are parameters of the model with their output sizes as the only assumption (Digests.WF).",
+         "Lean 4 proof (encoder specification + HMAC refinement) + e2e oracle + correspondence", "§7 C09"),
+ "C10": ("The property does NOT hold of the code and this is proved, not assumed: Lean theorems mac_ignored (the acceptance decision is independent of msgAuthenticationParameters and of the auth / priv flags), forged_delivered (every otherwise-matching plaintext GetResponse is delivered whatever its MAC and flags) and not_holds (a concrete refutation of the weakest reading of the property); accept_partial is the part that holds (user, engine id, msgID, request-id all match), Reports are exempt. The check replays the whole forgery matrix on the real extension: the listed forgery classes print KNOWN-FINDING, any other delivered forgery, or one with a mismatching field, is a VIOLATION.",
+         TB + "known finding D12 (C10-D12a/b/c in known_findings.json), not repaired: verifying the MAC needs the raw datagram in unwrap_pdu, a change of the socket trait.",
+         "Lean 4 proof (refutation with witness + partial theorem) + forgery-matrix oracle + correspondence", "§7 C10"),
+ "C11": ("Lean theorems: DES / AES encrypt produce Spec.cbcEncrypt / Spec.cfbEncrypt (textbook CBC, CFB-128) of the scoped PDU's independent encoding plus < 1 block of zero padding, with key / pre-IV / IV as RFC 3414 8.1.1.1 and RFC 3826 3.1.2.1 prescribe, independent of the private buffer's earlier contents; decrypt inverts encrypt for any invertible block function and the scoped PDU parser recovers the exact content despite padding. E2E: every encrypted request decrypted with OpenSSL and compared octet for octet; agent-encrypted replies delivered exactly.",
+         TB + "the DES / AES block functions are parameters (Ciphers.WF: block size, invertibility for the inverse theorem).",
+         "Lean 4 proof (refinement to textbook mode specifications, inverse theorem) + e2e oracle + correspondence", "§7 C11"),
+ "C12": ("Lean theorems: password_to_master hashes exactly the first 2^20 octets of the endlessly repeated password (Spec.passwordToKey, for every non-empty password incl. lengths not dividing 2^20), localisation is H(Ku || engineID || Ku), as_key_type dispatches on the two high bits for every code < 64 x 4 and refuses unknown codes, empty passwords and wrong-size localized keys with InvalidKey / InvalidVersion and never panics; the privacy key is localized with the auth digest. Streams against hashlib (itself validated against the RFC's loop), Python API, user.py, sessions per key type, constructor on malformed material.",
+         TB + "MD5 / SHA-1 are parameters; a wrong-size MASTER key is hashed as given by the Rust layer (user.py pads it) — documented deviation, DESIGN.md §9.",
+         "Lean 4 proof (refinement to the RFC 3414 A.2 specification, totality) + differential correspondence + e2e oracle", "§7 C12"),
+ "C13": ("Lean theorems about unwrap_pdu and set_keys for every session state and incoming message: an empty engine id is replaced by the one of the first accepted message and never changes afterwards; boots and time are those of the most recent accepted message and untouched by skipped ones; every request is stamped with the stored engine id (USM and context), boots, time and user; set_keys localizes to the stored engine id; probe = empty reportable GET. E2E: the real sync and async SnmpSession with and without engine id against an agent whose clock moves between replies.",
+         TB + "the Python refresh() sequencing is exercised, not modelled.",
+         "Lean 4 proof (state-machine invariants) + e2e oracle (sync + async clients) + correspondence", "§7 C13"),
+ "C14": ("Lean theorems: every encrypt advances the per-key counter by exactly one modulo 2^32 (DES) / 2^64 (AES), also when it fails; the transmitted msgPrivacyParameters are boots||counter resp. the 64-bit counter (8 octets, injective in the counter), hence any two of fewer than 2^32 / 2^64 messages of one key installation differ; the priv flag is set iff the session has a privacy key; everything outside msgData depends only on the ciphertext's length (frame_request_independent). E2E: salt sequences of sessions and bare cipher objects, plaintext-window search outside the ciphertext.",
+         TB + "ciphertext opacity is the cipher's property, not proved; rand seeds the counter (any seed).",
+         "Lean 4 proof (counter invariant over call histories, injectivity) + e2e oracle + correspondence", "§7 C14"),
  "C05": ("Lean theorem: composed with an RFC 3416 GetNext agent over ANY finite strictly sorted MIB (independent Spec.agentNext / Spec.subtree), the library's GetNext walk from any valid base yields exactly the entries strictly below the base, in order, each once, then stops; supporting theorems: byte-prefix = arc-prefix and cmp_arcs = arc order on canonical encodings, end-of-MIB answers stop the walk, fetch policy. GetBulk, fetch, sync/async and v1/v2c/v3 equivalence: e2e against an RFC agent simulator over random MIBs with an independent subtree oracle (plus the C06 safety theorems for GetBulk).",
          TB + "GetBulk completeness is decided by the e2e oracle and the C06 theorems, not by a composition theorem (partial); asyncio, sockets not modelled.",
          "Lean 4 proof (refinement to an abstract agent/subtree spec, induction over the sorted MIB) + e2e oracle + correspondence", "§7 C05"),
